@@ -15,6 +15,12 @@ import (
 )
 
 func Parse(r io.ReadSeeker) (Exif, error) {
+	// The header is searched from where the reader stands, and its offset is
+	// counted from there: remember that position for the seek to the header.
+	start, err := r.Seek(0, io.SeekCurrent)
+	if err != nil {
+		return Exif{}, err
+	}
 	h, err := tiff.ScanTiffHeader(r, imagetype.ImageUnknown)
 	if err != nil {
 		return Exif{}, err
@@ -23,7 +29,7 @@ func Parse(r io.ReadSeeker) (Exif, error) {
 	ir := NewIfdReader(Logger)
 	defer ir.Close()
 
-	if _, err = r.Seek(int64(h.TiffHeaderOffset), 0); err != nil {
+	if _, err = r.Seek(start+int64(h.TiffHeaderOffset), io.SeekStart); err != nil {
 		return ir.Exif, err
 	}
 	if err := ir.DecodeTiff(r, h); err != nil {
